@@ -46,7 +46,10 @@ def universe(tier, rng):
                             scns.append({"kinds": list(kinds), "fault": fault, "at": at, "redirect": redirect, "form": form, "rop": ">" if (n + at) % 2 else ">>"})
     if tier == "quick":
         scns = [s for i, s in enumerate(scns) if s["fault"] != "none" or i % 2 == 0]
-        scns = rng.sample(scns, min(len(scns), 160))
+        # single-stage shapes with a fault are few and cheap: always kept
+        keep = [s for s in scns if len(s["kinds"]) == 1 and s["fault"] != "none"]
+        rest = [s for s in scns if not (len(s["kinds"]) == 1 and s["fault"] != "none")]
+        scns = keep + rng.sample(rest, min(len(rest), 150))
     else:
         scns += [dict(s, rop="2>") for s in scns if s["redirect"] and s["fault"] == "none"]
         scns += [dict(s, repeat=12) for s in scns if s["fault"] in ("not_found", "consumer_exits_early") and s["form"] in ("bare", "dollar")]
